@@ -38,6 +38,8 @@ fn unit_strategy() -> impl Strategy<Value = Vec<u16>> {
             c.encode_utf16(&mut b).to_vec()
         }),
         1 => prop_oneof![Just(1u16), Just(9), Just(10), Just(0x7F)].prop_map(|c| vec![c]),
+        // units whose bytes look like a byte-order mark when a segment starts with them
+        1 => prop_oneof![Just(vec![0xFEFFu16]), Just(vec![0xFFFE]), Just(vec![0xBBEF, 0x00BF])],
     ]
 }
 
